@@ -1,5 +1,5 @@
 (* C12 — quitonerror decides how a rejected frame is reported, not which frames arrive. *)
-From PyUbx Require Import Base Bytes Reader Reader_generic Reader_file.
+From PyUbx Require Import Base Bytes Reader Reader_generic Reader_file Reader_any.
 Open Scope N_scope.
 
 Theorem C12_ignore_log : forall (P : Type) (parse : N -> bytes -> result P) (nmea_hdr : N -> bool) c s,
@@ -25,3 +25,30 @@ Theorem C12_raise : forall (P : Type) (parse : N -> bytes -> result P) (nmea_hdr
                (snd (upto_reject parse c (events nmea_hdr s)) = None -> rest = []).
 Proof. exact @c12_raise. Qed.
 Print Assumptions C12_raise.
+
+(* THE SAME FOR EVERY STREAM IMPLEMENTATION.  S is any state type and rd / rdl any functions - a file, a socket, a
+   serial port whose reads come back short although data follows, a stream that invents bytes - and any fuel: the
+   three policies only interpret the framing trace, which is a function of the stream alone. *)
+Theorem C12_ignore_log_any_stream : forall (S P : Type) (rd : nat -> S -> bytes * S) (rdl : S -> bytes * S)
+    (parse : N -> bytes -> result P) (nmea_hdr : N -> bool) c fuel s,
+  items (read_all rd rdl parse nmea_hdr (withqe c 0) fuel s) = items (read_all rd rdl parse nmea_hdr (withqe c 1) fuel s).
+Proof. exact @c12_ignore_log_any. Qed.
+Print Assumptions C12_ignore_log_any_stream.
+
+Theorem C12_handler_any_stream : forall (S P : Type) (rd : nat -> S -> bytes * S) (rdl : S -> bytes * S)
+    (parse : N -> bytes -> result P) (nmea_hdr : N -> bool) c fuel s,
+  reports (read_all rd rdl parse nmea_hdr (withqe c 1) fuel s) = rejections parse c (fst (trace rd rdl nmea_hdr fuel s)) /\
+  reports (read_all rd rdl parse nmea_hdr (withqe c 0) fuel s) = [].
+Proof. exact @c12_handler_any. Qed.
+Print Assumptions C12_handler_any_stream.
+
+Theorem C12_raise_any_stream : forall (S P : Type) (rd : nat -> S -> bytes * S) (rdl : S -> bytes * S)
+    (parse : N -> bytes -> result P) (nmea_hdr : N -> bool) c fuel s,
+  (items (read_all rd rdl parse nmea_hdr (withqe c 2) fuel s), raised (read_all rd rdl parse nmea_hdr (withqe c 2) fuel s))
+    = upto_reject parse c (fst (trace rd rdl nmea_hdr fuel s)) /\
+  reports (read_all rd rdl parse nmea_hdr (withqe c 2) fuel s) = [] /\
+  exists rest, items (read_all rd rdl parse nmea_hdr (withqe c 0) fuel s)
+                 = fst (upto_reject parse c (fst (trace rd rdl nmea_hdr fuel s))) ++ rest /\
+               (snd (upto_reject parse c (fst (trace rd rdl nmea_hdr fuel s))) = None -> rest = []).
+Proof. exact @c12_raise_any. Qed.
+Print Assumptions C12_raise_any_stream.
